@@ -66,10 +66,12 @@ class Subroutine(Scope):
         return tmp_list
 
     def resolve_arg_link(self, obj_tree):
-        if (self.args == "") or (len(self.in_children) > 0):
+        if len(self.in_children) > 0:
             return
-        arg_list = self.args.replace(" ", "").split(",")
-        arg_list_lower = self.args.lower().replace(" ", "").split(",")
+        # (a procedure without dummy arguments still has to be checked for
+        # variables declared with INTENT)
+        arg_list = [a for a in self.args.replace(" ", "").split(",") if a]
+        arg_list_lower = [a.lower() for a in arg_list]
         self.arg_objs = [None] * len(arg_list)
         # check_objs = copy.copy(self.children)
         # for child in self.children:
